@@ -612,6 +612,13 @@ func checkC10Framing(r *Report, p *Prog) {
 			// forms 2 and 3: the cipher writes to buf[S:] and the first S bytes of buf are the IV
 			if sl, ok := dst.(*ssa.Slice); ok && sl.Low != nil && sl.High == nil {
 				buf, off := fx.AP(sl.X), fx.AP(sl.Low)
+				// an offset written as len(iv) is the size iv was made with
+				offAlt := ""
+				if la := lenArg(sl.Low); la != nil {
+					if s := sliceLenAP(fx, la); s != "" && fx.AP(la) == fx.AP(ivOp) {
+						offAlt = s
+					}
+				}
 				filled := fx.AP(ivOp) == buf+"[:"+off+"]"
 				for _, b := range f.Blocks {
 					for _, in := range b.Instrs {
@@ -621,13 +628,16 @@ func checkC10Framing(r *Report, p *Prog) {
 						}
 						if bi, ok := c.Call.Value.(*ssa.Builtin); ok && bi.Name() == "copy" {
 							to, from := fx.AP(c.Call.Args[0]), fx.AP(c.Call.Args[1])
-							if (to == buf || to == buf+"[:"+off+"]") && from == fx.AP(ivOp) && sliceLenAP(fx, ivOp) == off {
+							if (to == buf || to == buf+"[:"+off+"]") && from == fx.AP(ivOp) && (sliceLenAP(fx, ivOp) == off || offAlt != "") {
 								filled = true
 							}
 						}
 					}
 				}
 				if filled {
+					if offAlt != "" {
+						off = offAlt
+					}
 					prepended = append(prepended, sizeSuffix(off))
 				}
 			}
